@@ -37,7 +37,7 @@ FLOORS = {
 def shards(tier, seed):
     if tier == "quick":
         return [dict(shard=i, seed=seed, n_msgs=4000, n_dgrams=300, sweep=None) for i in range(8)]
-    out = [dict(shard=i, seed=seed, n_msgs=110000, n_dgrams=6000, sweep=None) for i in range(12)]
+    out = [dict(shard=i, seed=seed, n_msgs=400000, n_dgrams=40000, sweep=None) for i in range(16)]
     # single-field sweeps over every 16-bit value and every payload length 0..4096
     for i, field in enumerate(("sid", "mid", "cid", "sess", "iv", "paylen")):
         out.append(dict(shard=100 + i, seed=seed, n_msgs=0, n_dgrams=0, sweep=field))
